@@ -108,3 +108,19 @@ Definition fold_fallback_breaks : bool :=
   | (_, Custom s) => negb (str_eqb s LOCALE_ID)
   | _ => true
   end.
+
+(** * I/O type decay.  [decay_tab]: VALUE_TO_IO_DECAY as canonical text -> canonical text; [special]: the members IODef.export
+    writes as a literal (`boolean` -> `bool`); every other member is written as the canonical text of its decayed member. *)
+Definition assoc_default (k : str) (tab : list (str * str)) : str := match assoc k tab with Some v => v | None => k end.
+Definition io_decay_of (decay_tab : list (str * str)) (c : str) : str := assoc_default c decay_tab.
+Definition io_text_of (decay_tab special : list (str * str)) (c : str) : str :=
+  match assoc c special with Some t => t | None => io_decay_of decay_tab c end.
+(** for one member: what is written reads back as the decayed member, and the decayed member is written the same way *)
+Definition io_member_ok (fold : str -> str) (tab : list (str * str)) (sp : str) (decay_tab special : list (str * str)) (c : str) : bool :=
+  match spec_io fold tab sp (io_text_of decay_tab special c) with
+  | (false, Known d) => str_eqb d (io_decay_of decay_tab c)
+                        && str_eqb (io_text_of decay_tab special (io_decay_of decay_tab c)) (io_text_of decay_tab special c)
+  | _ => false
+  end.
+Definition io_decay_ok (fold : str -> str) (tab : list (str * str)) (sp : str) (decay_tab special : list (str * str)) : bool :=
+  forallb (fun kv => io_member_ok fold tab sp decay_tab special (fst kv)) decay_tab.
